@@ -32,7 +32,7 @@ let show_send s = match s with
       (hex_of_str (join [n_of_int 32] scopes)) (show_secret grant)
 let show_result r = match r with
   | RResp true -> "=401" | RResp false -> "=ok"
-  | RErr ENoCred -> "=nocred" | RErr EMissing -> "=missing" | RErr EFetch -> "=fetch" | RErr ERewind -> "=rewind"
+  | RErr ENoCred -> "=nocred" | RErr EMissing -> "=missing" | RErr EFetch -> "=fetch" | RErr ERewind -> "=rewind" | RErr ETransport -> "=transport"
   | RBad -> "=BAD"
 
 let parse_answer t =
@@ -41,6 +41,7 @@ let parse_answer t =
   | 'U' -> A401 (str_of_hex (String.sub t 1 (String.length t - 1)))
   | 'T' -> ATok (n_of_int (int_of_string (String.sub t 1 (String.length t - 1))))
   | 'F' -> AFail
+  | 'X' -> AErr
   | _ -> failwith "answer"
 
 let () =
@@ -103,5 +104,34 @@ let () =
            | 'a' -> OAcquire g | 'd' -> ODone (g, v) | 'c' -> OCancelF g | 'r' -> OReadClosed (g, v)
            | 'x' -> OCtxDone g | _ -> failwith "once event") in
          Printf.printf "%s %s\n" id (if once_accepts evs then "ACCEPT" else "REJECT")
+       | "KS" ->
+         (* KS ncalls {g host scheme hexkey}* nev ev* : a recorded concurrent Set execution *)
+         let ncalls = next_int () in
+         let tbl = next_n ncalls (fun () ->
+           let g = n_of_int (next_int ()) in
+           let h = n_of_int (next_int ()) in
+           let sch = (match next () with "basic" -> SchBasic | "bearer" -> SchBearer | _ -> SchUnknown) in
+           let k = str_of_hex (next ()) in
+           (g, { ck = ((h, sch), k); csrc = None })) in
+         let nev = next_int () in
+         let evs = next_n nev (fun () ->
+           let t = next () in
+           let body = String.sub t 1 (String.length t - 1) in
+           let a, bopt = (match String.split_on_char '.' body with
+             | [a] -> (int_of_string a, None)
+             | [a; b] -> (int_of_string a, Some (int_of_string b))
+             | _ -> failwith "set event") in
+           let g = n_of_int a in
+           let v = (match bopt with Some b -> n_of_int b | None -> n_of_int 0) in
+           match t.[0] with
+           | 'L' -> (CLoad g, (match bopt with Some b -> Some (nat_of_int b) | None -> None))
+           | 'D' -> (CDelete g, None)
+           | 'a' -> (COnce (g, OAcquire g), None)
+           | 'd' -> (COnce (g, ODone (g, v)), None)
+           | 'c' -> (COnce (g, OCancelF g), None)
+           | 'r' -> (COnce (g, OReadClosed (g, v)), None)
+           | 'x' -> (COnce (g, OCtxDone g), None)
+           | _ -> failwith "set event") in
+         Printf.printf "%s %s\n" id (if set_accepts tbl evs then "ACCEPT" else "REJECT")
        | _ -> Printf.printf "%s BADLINE\n" id)
     | _ -> Printf.printf "BADLINE %s\n" l)
